@@ -24,6 +24,7 @@ type job struct {
 	CancelStride int            `json:"cancelStride"`
 	VanishStride int            `json:"vanishStride"`
 	Off          int            `json:"off"`
+	OnlyOps      []string       `json:"onlyOps"` // sweep: inject only at primitives with these names (empty = all)
 	NonTrivial   bool           `json:"nonTrivial"`
 	Sample       bool           `json:"sample"`
 }
